@@ -512,6 +512,11 @@ func VerifC03_IngressStepShare_alb()     { c03IngressShare("aliyun-alb") }
 func VerifC03_IngressStepShare_higress() { c03IngressShare("higress") }
 func VerifC03_IngressStepShare_mse()     { c03IngressShare("mse") }
 
+// C03: the Ingress provider reports a step as routed ("done") only when the stored canary Ingress already carries
+// exactly the step's annotations — a 0% step on an Ingress that still has the previous step's weight or match is not
+// done (C14.ensure.doneIffStoredAnnotationsAreTheSteps of the same relation).
+func VerifC03_IngressRoutedMeansTheStoredIngressCarriesTheStep() { VerifC14_EnsureRoutesWrites() }
+
 // C04: the Ingress provider's Finalise really withdraws the canary Ingress (named after the *Ingress*, whatever the
 // Services are called) before it lets the clean-up go on to delete the canary Service (same obligations as C14's).
 func VerifC04_IngressFinaliseWithdrawsCanary() { VerifC14_Finalise() }
